@@ -22,10 +22,14 @@ AllMts == [sts |-> Wild("NONE"), mts |-> Wild("ALL")]
 Cfg(enc, prov, req, mc) == [enc |-> enc, prov |-> prov, req |-> req, mc |-> mc, origin |-> "create",
                             prefix |-> <<>>, suffix |-> "Shell", base |-> "M"]
 
-Scopes == { <<>>, <<"A">>, <<"A", "B">>, <<"C">>, <<"A", "A">> }
-ScopeTag(s) == CASE s = <<>> -> "g" [] s = <<"A">> -> "A" [] s = <<"A", "B">> -> "AB" [] s = <<"C">> -> "C" [] s = <<"A", "A">> -> "AA" [] OTHER -> "n"
+Scopes == { <<>>, <<"A">>, <<"A", "B">>, <<"C">>, <<"A", "A">>, <<"AB">> }     \* AB: textual, not identifier-wise, extension of A
+CppTag(s) == CASE s = <<>> -> "t_g" [] s = <<"A">> -> "t_A" [] s = <<"A", "B">> -> "t_AB" [] s = <<"C">> -> "t_C"
+              [] s = <<"A", "A">> -> "t_AA" [] s = <<"AB">> -> "t_ab" [] OTHER -> "t_n"
+ScopeTag(s) == CASE s = <<>> -> "g" [] s = <<"A">> -> "A" [] s = <<"A", "B">> -> "AB" [] s = <<"C">> -> "C" [] s = <<"A", "A">> -> "AA" [] s = <<"AB">> -> "ab" [] OTHER -> "n"
 Spellings(n) == { <<n>>, <<"B", n>>, <<"A", "B", n>>, <<"A", n>>, <<"C", n>> }
-SetToSeq(S) == CHOOSE q \in [1..Cardinality(S) -> S] : \A i, j \in 1..Cardinality(S) : i # j => q[i] # q[j]
+\* a fixed order of the candidate scopes (a CHOOSE over all bijections is exponential)
+ScopeOrder == << <<>>, <<"A">>, <<"A", "B">>, <<"C">>, <<"A", "A">>, <<"AB">>, <<"nested">> >>
+OrderedScopes(S) == SelectSeq(ScopeOrder, LAMBDA x : x \in S)
 
 VARIABLES cs, where, decoy, sp, base, fault
 vars == <<cs, where, decoy, sp, base, fault>>
@@ -36,13 +40,13 @@ vars == <<cs, where, decoy, sp, base, fault>>
 Mc == [on |-> TRUE, port |-> "p", claim |-> "Claim", grant |-> <<"Ok">>, release |-> "Release"]
 
 PortTypeModel ==
-  LET itfs == SetToSeq({D("interface", s \o <<"I">>) : s \in where})
+  LET itfs == [i \in 1..Cardinality(where) |-> D("interface", OrderedScopes(where)[i] \o <<"I">>)]
       dk   == IF decoy = <<"none">> THEN <<>> ELSE <<[D("extern", decoy \o <<"I">>) EXCEPT !.cpp = "int"]>>
       comp == [D("component", cs \o <<"M">>) EXCEPT !.ports = <<Pt("p", sp, "provides", FALSE)>>]
   IN [decls |-> itfs \o dk \o <<comp>>, cfg |-> Cfg(cs \o <<"M">>, AllSts, AllSts, NoMc)]
 
 FormalTypeModel ==
-  LET exts == SetToSeq({[D("extern", s \o <<"T">>) EXCEPT !.cpp = "t_" \o ScopeTag(s)] : s \in where})
+  LET exts == [i \in 1..Cardinality(where) |-> [D("extern", OrderedScopes(where)[i] \o <<"T">>) EXCEPT !.cpp = CppTag(OrderedScopes(where)[i])]]
       dk   == IF decoy = <<"none">> THEN <<>> ELSE <<[D("enum", decoy \o <<"T">>) EXCEPT !.fields = <<"Ok">>]>>
       itf  == [D("interface", cs \o <<"I">>) EXCEPT !.events =
                  <<Ev("Go", "in", <<"void">>, <<Fm("a", sp, "in")>>), Ev("Sig", "out", <<"void">>, <<Fm("b", sp, "in")>>)>>]
@@ -57,7 +61,8 @@ FormalTypeModel ==
 
 ClaimEnumModel ==
   LET here  == (where \ {<<"nested">>}) \cup (IF <<"nested">> \in where THEN {cs \o <<"I">>} ELSE {})
-      enums == SetToSeq({[D("enum", s \o <<"E">>) EXCEPT !.fields = <<"No", "Ok">>] : s \in here})
+      hs    == OrderedScopes(where \ {<<"nested">>}) \o (IF <<"nested">> \in where THEN <<cs \o <<"I">> >> ELSE <<>>)
+      enums == [i \in 1..Len(hs) |-> [D("enum", hs[i] \o <<"E">>) EXCEPT !.fields = <<"No", "Ok">>]]
       dk    == IF decoy = <<"none">> THEN <<>> ELSE <<[D("extern", decoy \o <<"E">>) EXCEPT !.cpp = "int"]>>
       itf   == [D("interface", cs \o <<"I">>) EXCEPT !.events =
                   <<Ev("Claim", "in", sp, <<>>), Ev("Release", "in", <<"void">>, <<>>), Ev("Sig", "out", <<"void">>, <<>>)>>]
@@ -148,9 +153,9 @@ Init ==
   THEN /\ base \in Bases /\ fault \in Faults /\ (fault \in McFaults => base.mc)
        /\ cs = <<>> /\ where = {} /\ decoy = <<"none">> /\ sp = <<>>
   ELSE /\ base = NoBase /\ fault = "none"
-       /\ cs \in {<<>>, <<"A">>, <<"A", "B">>}
+       /\ cs \in {<<>>, <<"A">>, <<"A", "B">>, <<"AB">>}
        /\ where \in (SUBSET (Scopes \cup (IF Mode = "claim-enum" THEN {<<"nested">>} ELSE {}))) \ {{}}
-       /\ decoy \in Scopes \cup {<<"none">>}
+       /\ decoy \in {<<>>, <<"A">>, <<"A", "B">>, <<"none">>}
        /\ sp \in Spellings(CASE Mode = "port-type" -> "I" [] Mode = "formal-type" -> "T" [] OTHER -> "E")
 Next == FALSE
 Spec == Init /\ [][Next]_vars
